@@ -169,3 +169,35 @@ __CPROVER_assigns(self->num, self->last, __CPROVER_object_whole(b); g_hassucc: b
         says='emplace(pos) in the middle of a FULL block: the block is split, the new block is linked in BOTH directions to both neighbours (so backward traversal sees it), last is updated if the split block was the last one, counts add up',
         trusted=['S-slice: only the split branch and the common tail of emplace(Block*, iterator, ...) are verified here', 'elements abstracted to counts; Block::emplace(pos) is only ever asked to insert at the end of a block with room in this branch']))
     return UNITS
+
+
+def make_iter():
+    """the gdeque iterator (the non-_NEW_ITERATOR struct Iterator {b, last, offset}) over the block list; blocks as counts + links"""
+    P = ['''
+struct LBlock { unsigned count; struct LBlock* next; struct LBlock* prev; };
+struct GIt { struct LBlock* b; struct LBlock* last; unsigned offset; };      /* b == NULL: the end iterator */
+bool g_hasn, g_hasp;      /* ghost: the block has a successor / predecessor */
+#define BLK_NE(p) ((p)->count >= 1 && (p)->count <= 4)                       /* list invariant: no empty block */
+''']
+    new = []
+    new.append(Unit(
+        name='GDIt_increment', src=GDQ, within=r'struct Iterator\b', anchor=r'void increment\(\)', proto='void GDIt_increment(struct GIt* self)',
+        contract="""__CPROVER_requires(__CPROVER_is_fresh(self, sizeof(*self)) && __CPROVER_is_fresh(self->b, sizeof(struct LBlock)) && BLK_NE(self->b) && self->offset < self->b->count && (g_hasn ? (__CPROVER_is_fresh(self->b->next, sizeof(struct LBlock)) && BLK_NE(self->b->next)) : self->b->next == 0))
+/* next element of the block, else the first element of the next block, else the end (b == NULL, offset 0) */
+__CPROVER_ensures(__CPROVER_old(self->offset) + 1 < __CPROVER_old(self->b)->count ? (self->b == __CPROVER_old(self->b) && self->offset == __CPROVER_old(self->offset) + 1) : (self->b == __CPROVER_old(self->b->next) && self->offset == 0))
+__CPROVER_assigns(self->b, self->offset)""",
+        prelude=P, lower=[rx(r'b->size\(\)', 'b->count', 1, 1), members(['b', 'offset', 'last'], minimum=2)], no_flags=['--conversion-check'], inst='blocks as counts + links',
+        says='gdeque iterator ++: successor inside the block, else first element of the next block, else end()'))
+    new.append(Unit(
+        name='GDIt_decrement', src=GDQ, within=r'struct Iterator\b', anchor=r'void decrement\(\)', proto='void GDIt_decrement(struct GIt* self)',
+        contract="""__CPROVER_requires(__CPROVER_is_fresh(self, sizeof(*self)) && g_end <= 1)
+/* the end iterator of a non-empty deque, or an element that is not the first one */
+__CPROVER_requires(g_end ? (self->b == 0 && __CPROVER_is_fresh(self->last, sizeof(struct LBlock)) && BLK_NE(self->last))
+                         : (__CPROVER_is_fresh(self->b, sizeof(struct LBlock)) && BLK_NE(self->b) && self->offset < self->b->count && (self->offset == 0 ==> (__CPROVER_is_fresh(self->b->prev, sizeof(struct LBlock)) && BLK_NE(self->b->prev)))))
+/* predecessor: last element of the deque / previous element of the block / last element of the previous block */
+__CPROVER_ensures(g_end ? (self->b == self->last && self->offset == self->last->count - 1)
+                        : (__CPROVER_old(self->offset) > 0 ? (self->b == __CPROVER_old(self->b) && self->offset == __CPROVER_old(self->offset) - 1) : (self->b == __CPROVER_old(self->b->prev) && self->offset == self->b->count - 1)))
+__CPROVER_assigns(self->b, self->offset)""",
+        prelude=P + ['unsigned g_end;\n'], lower=[rx(r'b->size\(\)', 'b->count', 2, 2), members(['b', 'offset', 'last'], minimum=2)], no_flags=['--conversion-check'], inst='blocks as counts + links',
+        says='gdeque iterator --: from end() to the last element, otherwise to the predecessor (through the prev link at a block boundary -- the link F18 was about)'))
+    return new
